@@ -40,6 +40,7 @@ type Frame struct {
 	litSig    *types.Signature
 	panicDesc string
 	ghost     map[string]Val
+	iterSnap  map[int]*State // per loop ordinal: state at the start of the current iteration
 }
 
 type loopCtx struct {
